@@ -173,6 +173,16 @@ Proof.
     injection H as <- _. auto.
 Qed.
 
+(* every state a history reaches from two fresh vectors (or from any invariant state) satisfies the invariant *)
+Theorem xexec_inv : forall ops s s', inv c (fst s) -> inv c (snd s) -> xexec pred s ops = Some s' ->
+  inv c (fst s') /\ inv c (snd s').
+Proof.
+  induction ops as [|o rest IH]; intros s s' Ha Hb H; cbn [xexec] in H.
+  - injection H as <-. auto.
+  - destruct (xstep pred s o) as [[s1 out]| | |] eqn:E; try discriminate H.
+    destruct (xstep_keeps_inv s o s1 out Ha Hb E) as (Ha1 & Hb1). exact (IH s1 s' Ha1 Hb1 H).
+Qed.
+
 Theorem xrun_fast_eq : forall ops s, inv c (fst s) -> inv c (snd s) -> xrun_fast pred s ops = xrun pred s ops.
 Proof.
   induction ops as [|o rest IH]; intros s Ha Hb; cbn [xrun_fast xrun]; [reflexivity|].
